@@ -52,7 +52,8 @@ def check_aes_window(ctx, case):
     kw = {'col_in': conv(col_in)}
     if col_out is not None:
         kw['col_out'] = conv(col_out)
-    out = must(case, 'aes.key_expansion(%s%s)' % (kw, '' if ikind is None else ' as numpy.' + ikind), aes.key_expansion, arg, **kw)
+    out, hist = gen.pure_call(case, 'aes.key_expansion(%s%s)' % (kw, '' if ikind is None else ' as numpy.' + ikind), aes.key_expansion, [arg], kw)
+    arg = arg if hist in ('plain', 'held') else a0
     co = TOTAL[ks] if col_out is None else col_out
     if col_in < co:
         lo, hi = col_in, co
@@ -63,7 +64,7 @@ def check_aes_window(ctx, case):
         raise Violation('aes.key_expansion(col_in=%d, col_out=%s%s) keysize=%d: differs from the true schedule columns [%d,%d)' % (col_in, col_out, '' if ikind is None else ', passed as numpy.' + ikind, ks, lo, hi), case)
     if not np.array_equal(arg, a0):
         raise Violation('aes.key_expansion modified its input', case)
-    ctx.case(case, col_in > 0 or co <= col_in, ['aes-window', 'keysize:%d' % ks, 'backward' if co <= col_in else 'forward', 'single' if single else 'batch'],
+    ctx.case(case, col_in > 0 or co <= col_in, ['aes-window', 'keysize:%d' % ks, 'backward' if co <= col_in else 'forward', 'single' if single else 'batch', 'history:' + hist],
              key=('w', col_in, col_out, single, keys))
 
 
@@ -71,7 +72,7 @@ def check_aes_schedule(ctx, case):
     keys, single = case['keys'], case['single']
     ks = keys.shape[1]
     arg = _as_arg(case, keys[0] if single else keys)
-    out = must(case, 'aes.key_schedule', aes.key_schedule, arg)
+    out, hist = gen.pure_call(case, 'aes.key_schedule', aes.key_schedule, [arg])
     exp = np.array([AR.round_keys(bytes(k)) for k in (keys[:1] if single else keys)], dtype='uint8')
     if single:
         exp = exp[0]
@@ -84,21 +85,21 @@ def check_aes_schedule(ctx, case):
             # the shape for a single key is (1, 11, 16) (key_expansion documents a leading key axis): content is what the property states
             if np.squeeze(back).shape != np.squeeze(exp).shape or not np.array_equal(np.squeeze(back), np.squeeze(exp)):
                 raise Violation('aes.inv_key_schedule(round_in=%d) does not reproduce the schedule' % r, case)
-    ctx.case(case, True, ['aes-schedule', 'keysize:%d' % ks, 'single' if single else 'batch'], key=('s', single, keys))
+    ctx.case(case, True, ['aes-schedule', 'keysize:%d' % ks, 'single' if single else 'batch', 'history:' + hist], key=('s', single, keys))
 
 
 def check_des_schedule(ctx, case):
     keys, single, r = case['keys'], case['single'], case['interrupt']
     arg = _as_arg(case, keys[0] if single else keys)
     kw = {} if r is None else {'interrupt_after_round': r}
-    out = must(case, 'des.key_schedule(%s)' % kw, des.key_schedule, arg, **kw)
+    out, hist = gen.pure_call(case, 'des.key_schedule(%s)' % kw, des.key_schedule, [arg], kw)
     rr = 15 if r is None else r
     exp = np.array([DR.schedule_words(bytes(k))[:rr + 1] for k in (keys[:1] if single else keys)], dtype='uint8')
     if single:
         exp = exp[0]
     if np.shape(out) != exp.shape or not np.array_equal(out, exp):
         raise Violation('des.key_schedule(interrupt_after_round=%s) differs from PC-1/shift/PC-2 (shape %s vs %s)' % (r, np.shape(out), exp.shape), case)
-    ctx.case(case, True, ['des-schedule', 'single' if single else 'batch', 'interrupt:%s' % r], key=('d', single, r, keys))
+    ctx.case(case, True, ['des-schedule', 'single' if single else 'batch', 'interrupt:%s' % r, 'history:' + hist], key=('d', single, r, keys))
 
 
 def check_des_master(ctx, case):
